@@ -27,6 +27,7 @@ TraceNext ==
                                      /\ e.r.owned = (e.a.kind # "raw")
                                      /\ e.r.prot = e.r.req_prot /\ e.r.flags = e.r.req_flags
                                      /\ e.r.has_file = (e.a.kind = "file") /\ (e.a.kind = "file" => e.r.foff = e.a.foff)
+                                     /\ e.r.huge = (IF "huge" \in DOMAIN e.a THEN (IF e.a.huge THEN 1 ELSE 0) ELSE 2)   \* the hugetlbfs hint is reported back (2 = none)
                                      /\ ("coherent" \in DOMAIN e.r => e.r.coherent),
                      "attributes", [expected |-> x])
             \* a refused request leaves nothing mapped; an external mapping is never unmapped
